@@ -496,6 +496,9 @@ func (w *World) AcceptUserCode(userCode string, accept bool) bool {
 		if s, ok := req.GetSession().(interface{ SetSubject(string) }); ok {
 			s.SetSubject("device-user")
 		}
+		if s, ok := req.GetSession().(interface{ IDTokenClaims() *jwt.IDTokenClaims }); ok && s.IDTokenClaims().Subject == "" {
+			s.IDTokenClaims().Subject = "device-user" // openid.DefaultSession.SetSubject does not touch the claims
+		}
 	} else {
 		req.SetUserCodeState(fosite.UserCodeRejected)
 	}
